@@ -181,26 +181,47 @@ func ParsePlain(b []byte) (*Header, error) {
 // Parse reads the whole frame header and lays out the partitions. Structural problems are
 // returned as errors.
 func Parse(b []byte) (*Header, error) {
+	h, _, err := ParseDec(b)
+	return h, err
+}
+
+// ParseDec is Parse that also hands back the boolean decoder positioned at the first macroblock header
+// (nil when the plain header is already unusable). Pos reports how many bytes of partition 0 it has consumed.
+func ParseDec(b []byte) (*Header, *BoolDec, error) {
+	h, d, err := parseDec(b)
+	return h, d, err
+}
+
+func (d *BoolDec) Pos() int { return d.pos }
+
+func parseDec(b []byte) (*Header, *BoolDec, error) {
+	h, d, err := parseInner(b)
+	return h, d, err
+}
+
+func parseInner(b []byte) (hh *Header, dd *BoolDec, ee error) {
+	var d *BoolDec
+	ret := func(h *Header, err error) (*Header, *BoolDec, error) { return h, d, err }
 	h, err := ParsePlain(b)
 	if err != nil {
-		return h, err
+		return ret(h, err)
 	}
 	if !h.KeyFrame {
-		return h, errors.New("vp8: not a key frame")
+		return ret(h, errors.New("vp8: not a key frame"))
 	}
 	if h.Profile > 3 {
-		return h, fmt.Errorf("vp8: profile %d > 3", h.Profile)
+		return ret(h, fmt.Errorf("vp8: profile %d > 3", h.Profile))
 	}
 	if !h.Show {
-		return h, errors.New("vp8: show_frame is 0")
+		return ret(h, errors.New("vp8: show_frame is 0"))
 	}
 	if h.Width == 0 || h.Height == 0 {
-		return h, errors.New("vp8: zero dimension")
+		return ret(h, errors.New("vp8: zero dimension"))
 	}
 	if 10+h.Part0Size > len(b) {
-		return h, fmt.Errorf("vp8: partition 0 (%d bytes) exceeds the %d-byte bitstream", h.Part0Size, len(b))
+		return ret(h, fmt.Errorf("vp8: partition 0 (%d bytes) exceeds the %d-byte bitstream", h.Part0Size, len(b)))
 	}
-	d := NewBoolDec(b[10 : 10+h.Part0Size])
+	d = NewBoolDec(b[10 : 10+h.Part0Size])
 	h.ColorSpace = d.Lit(1)
 	h.ClampType = d.Lit(1)
 	h.SegEnabled = d.Flag()
@@ -273,23 +294,23 @@ func Parse(b []byte) (*Header, error) {
 		h.SkipProba = d.Lit(8)
 	}
 	if d.Overrun {
-		return h, errors.New("vp8: frame header runs past partition 0")
+		return ret(h, errors.New("vp8: frame header runs past partition 0"))
 	}
 	// partition table
 	rest := b[10+h.Part0Size:]
 	tbl := 3 * (h.NumPartitions - 1)
 	if len(rest) < tbl {
-		return h, fmt.Errorf("vp8: partition size table (%d bytes) truncated", tbl)
+		return ret(h, fmt.Errorf("vp8: partition size table (%d bytes) truncated", tbl))
 	}
 	left := len(rest) - tbl
 	for i := 0; i < h.NumPartitions-1; i++ {
 		sz := int(rest[3*i]) | int(rest[3*i+1])<<8 | int(rest[3*i+2])<<16
 		if sz > left {
-			return h, fmt.Errorf("vp8: token partition %d (%d bytes) exceeds the remaining %d bytes", i, sz, left)
+			return ret(h, fmt.Errorf("vp8: token partition %d (%d bytes) exceeds the remaining %d bytes", i, sz, left))
 		}
 		left -= sz
 		h.PartSizes = append(h.PartSizes, sz)
 	}
 	h.PartSizes = append(h.PartSizes, left)
-	return h, nil
+	return ret(h, nil)
 }
